@@ -443,4 +443,68 @@ def codeL : Op → List (Cmd LState Regs)
 
 def callL (op : Op) : Call LState Regs := { op := op, code := codeL op, init := regs0, ret := fun r => r.out }
 
+/-! ## the ring at pointer level: `LRUCacheNode.link_after` / `unlink` as coded
+
+Nodes are numbers, the sentinel is 0; `next` / `prev` are the two pointer fields.  The four (two) assignments are in
+the order of the code, each reading the pointers as the previous assignment left them. -/
+
+structure Ptrs where
+  next : Nat → Nat
+  prev : Nat → Nat
+
+def setP (f : Nat → Nat) (i v : Nat) : Nat → Nat := fun j => if j = i then v else f j
+
+/-- `self.prev = node; self.next = node.next; node.next.prev = self; node.next = self` (self = `x`, node = `a`) -/
+def linkAfter (p : Ptrs) (x a : Nat) : Ptrs :=
+  let p1 : Ptrs := { p with prev := setP p.prev x a }
+  let p2 : Ptrs := { p1 with next := setP p1.next x (p1.next a) }
+  let p3 : Ptrs := { p2 with prev := setP p2.prev (p2.next a) x }
+  { p3 with next := setP p3.next a x }
+
+/-- `self.next.prev = self.prev; self.prev.next = self.next` -/
+def unlinkP (p : Ptrs) (x : Nat) : Ptrs :=
+  let p1 : Ptrs := { p with prev := setP p.prev (p.next x) (p.prev x) }
+  { p1 with next := setP p1.next (p1.prev x) (p1.next x) }
+
+/-- `LRUCache.__init__`: `sentinel.prev = sentinel; sentinel.next = sentinel` -/
+def ptrs0 : Ptrs := { next := fun _ => 0, prev := fun _ => 0 }
+
+/-- the make-room loop of `put` / the shrink loop of `set_max_size` at pointer level:
+`while len(self.data) >= limit: gnode = self.sentinel.prev; gnode.unlink(); del self.data[gnode.key]` -/
+def evictP (limit : Nat) : Nat → Ptrs × Nat → Ptrs × Nat
+  | 0, pc => pc
+  | fuel + 1, (p, count) => if count ≥ limit then evictP limit fuel (unlinkP p (p.prev 0), count - 1) else (p, count)
+
+/-- `flush()`: `gnode = sentinel.next; while gnode != sentinel: next = gnode.next; gnode.unlink(); gnode = next` -/
+def flushP : Nat → Ptrs → Nat → Ptrs
+  | 0, p, _ => p
+  | fuel + 1, p, g => if g = 0 then p else flushP fuel (unlinkP p g) (p.next g)
+
+/-- node identity at pointer level: the node that carries key `k` (the sentinel is 0) -/
+def nid (k : Key) : Nat := k + 1
+
+/-- the pointer operations of each `LRUCache` method, in the order of the code; what the code decides by looking
+at the dict (`node is None`, `len(self.data)`) or at the answer (expired) is decided here from the list model, what
+it decides by following pointers (`sentinel.prev`, `gnode.next`) is decided from the pointers -/
+def stepP (p : Ptrs) (s : LState) : Op → Ptrs
+  | .get k =>
+    match findNode s.ring k with
+    | none => p
+    | some n => if n.ans.exp ≤ s.now then unlinkP p (nid k) else linkAfter (unlinkP p (nid k)) (nid k) 0
+  | .put k _ =>
+    match findNode s.ring k with
+    | none => linkAfter (evictP s.maxSize s.ring.length (p, s.ring.length)).1 (nid k) 0
+    | some _ => linkAfter (evictP s.maxSize s.ring.length (unlinkP p (nid k), s.ring.length - 1)).1 (nid k) 0
+  | .flush k =>
+    match findNode s.ring k with
+    | none => p
+    | some _ => unlinkP p (nid k)
+  | .flushAll => flushP (s.ring.length + 1) p (p.next 0)
+  | .setMax n => (evictP (clampMax n + 1) s.ring.length (p, s.ring.length)).1
+  | _ => p
+
+def runPL (p : Ptrs) (s : LState) : List Op → Ptrs × LState
+  | [] => (p, s)
+  | op :: rest => runPL (stepP p s op) (stepL s op).1 rest
+
 end Model.Cache
